@@ -660,6 +660,24 @@ func (w *World) checkDefault(fm *FileModel, p *Prop, S *Struct, F *Field, path s
 			out = append(out, Issue{Rule: "A-DEF", Construct: "defaulted property without unmarshaler", Msg: fmt.Sprintf("%s: the property has a default but %s has no %s to apply it", path, S.Name, mn)})
 			continue
 		}
+		// "absent OR NULL takes the default": the field of a defaulted property is a plain value; when its type is a named type with an
+		// unmarshaler of its own, encoding/json hands that method the token null (documented: UnmarshalJSON is called "including when
+		// the input is a JSON null"), so the method must let null through — it runs before the default is applied
+		if ft, isPtr := stripPtr(F.Type); !isPtr && mn == "UnmarshalJSON" {
+			if tm := fm.Methods[ft+"."+mn]; tm != nil && tm.Decl != nil && tm.Decl.Body != nil {
+				letsNull := false
+				ast.Inspect(tm.Decl.Body, func(n ast.Node) bool {
+					if bl, ok := n.(*ast.BasicLit); ok && (bl.Value == `"null"` || bl.Value == "`null`") {
+						letsNull = true
+					}
+					return true
+				})
+				if !letsNull {
+					out = append(out, Issue{Rule: "A-DEF", Construct: "null for a defaulted property is refused by the field type's own unmarshaler",
+						Msg: fmt.Sprintf("%s: the field %s.%s is a plain %s, whose own %s validates every input including the token null (no test for it): {\"<key>\": null} is refused before the default can be applied, although an absent or null property takes its default", path, S.Name, F.Name, ft, mn)})
+				}
+			}
+		}
 		if len(as) != 1 {
 			out = append(out, Issue{Rule: "A-DEF", Construct: "default not assigned exactly once", Msg: fmt.Sprintf("%s: expected exactly one default assignment to %s in %s.%s, found %d", path, F.Name, S.Name, mn, len(as))})
 			continue
